@@ -45,6 +45,7 @@ import (
 	"google.golang.org/grpc/connectivity"
 	"google.golang.org/grpc/credentials/insecure"
 	"google.golang.org/grpc/metadata"
+	"google.golang.org/grpc/peer"
 )
 
 const (
@@ -733,6 +734,7 @@ const (
 
 type srvStream struct {
 	seq      int
+	peer     string // remote TCP address: one per transport of a grpc.ClientConn
 	connIdx  string
 	fwd      string
 	ids      []uint64
@@ -807,6 +809,9 @@ func encodeResp(kind byte, p int) *tikvpb.BatchCommandsResponse_Response {
 func (s *echoServer) BatchCommands(ss tikvpb.Tikv_BatchCommandsServer) error {
 	md, _ := metadata.FromIncomingContext(ss.Context())
 	st := &srvStream{}
+	if p, ok := peer.FromContext(ss.Context()); ok && p.Addr != nil {
+		st.peer = p.Addr.String()
+	}
 	if v := md.Get(client.VerifConnIdxKey); len(v) > 0 {
 		st.connIdx = v[0]
 	}
@@ -1068,7 +1073,14 @@ func (h *H) blackbox(scn string, seed, nconn, ncallers, nreq, faults int) string
 	}
 	srv.mu.Lock()
 	defer srv.mu.Unlock()
-	seen := map[uint64]int{}
+	// ids: strictly increasing on every stream; never reused within one connection pool.  Without a pool close the
+	// whole run is one pool (one builder); with fClose a second pool (new builder, new TCP connections, the server is
+	// never restarted in those scenarios) may start again at 1, so uniqueness is checked per remote TCP address.
+	type idKey struct {
+		peer string
+		id   uint64
+	}
+	seen := map[idKey]int{}
 	for _, st := range srv.streams {
 		var last uint64
 		for i, id := range st.ids {
@@ -1076,12 +1088,14 @@ func (h *H) blackbox(scn string, seed, nconn, ncallers, nreq, faults int) string
 				return fmt.Sprintf("FAIL ids-not-increasing conn=%s fwd=%q stream=%d id=%d after=%d", st.connIdx, st.fwd, st.seq, id, last)
 			}
 			last = id
-			if prev, dup := seen[id]; dup && !(collapse) {
-				return fmt.Sprintf("FAIL id-reused id=%d payloads=%d,%d", id, prev, st.payloads[i])
-			} else if dup {
-				return fmt.Sprintf("FAIL id-reused id=%d", id)
+			k := idKey{"", id}
+			if faults&fClose != 0 {
+				k.peer = st.peer
 			}
-			seen[id] = st.payloads[i]
+			if prev, dup := seen[k]; dup {
+				return fmt.Sprintf("FAIL id-reused id=%d payloads=%d,%d", id, prev, st.payloads[i])
+			}
+			seen[k] = st.payloads[i]
 		}
 	}
 	if collapse {
